@@ -59,6 +59,7 @@ type DB struct {
 	Writes      int      // number of mutating operations executed in the current transaction
 	Commits     int
 	Rollbacks   int
+	OnCommit    func(d *DB) // called after every committed write transaction (harness hook: effect log)
 	FaultBudget int // number of operations that may still fail (symbolic choice per operation)
 	Faults      int
 	InTx        bool
@@ -69,7 +70,8 @@ var ErrUnique = errors.New("verifdb: UNIQUE constraint failed")
 
 func New() *DB { return &DB{NextBoxID: 1} }
 
-func (d *DB) clone() *DB {
+// Clone returns a deep copy of the model (used for transaction rollback and for crash-point reconstruction).
+func (d *DB) Clone() *DB {
 	c := *d
 	c.Boxes = make([]*Box, len(d.Boxes))
 	for i, b := range d.Boxes {
@@ -138,7 +140,7 @@ func (d *DB) Write(ctx context.Context, op func(context.Context, db.Transaction)
 		// nested write on the same connection: the real client would dead-lock on its write lock
 		panic("verifdb: nested Write (dead-lock on the real client)")
 	}
-	saved := d.clone()
+	saved := d.Clone()
 	d.InTx = true
 	d.Log = nil
 	d.Writes = 0
@@ -150,6 +152,9 @@ func (d *DB) Write(ctx context.Context, op func(context.Context, db.Transaction)
 		return err
 	}
 	d.Commits++
+	if d.Writes > 0 && d.OnCommit != nil {
+		d.OnCommit(d)
+	}
 	return nil
 }
 
